@@ -1,5 +1,6 @@
 import LexVerif.Proof.WriteFloatSafe
 import LexVerif.Proof.WriteFloatFixed
+import LexVerif.Props.C03
 import LexVerif.Proof.WriteFloatDragon
 /-!
 # C09 — documented buffer bound, no out-of-slice access (property theorems)
@@ -368,5 +369,47 @@ example : intFits { powerOfTwo := true, radix := true } ⟨"i8", 8, true, false,
 `format` + `required_mantissa_sign`: `u8` 255 needs 3 digits + 1 sign = 4 > `FORMATTED_SIZE_DECIMAL` = 3. -/
 theorem int_plus_sign_exception :
     (numeral 10 255).length + 1 > intBufferSizeConst {} "u8" 10 := by decide +kernel
+
+/-! ### the repaired integer size (`fixes/C09-unsigned-plus-sign.diff`)
+
+`lexical_write_integer::Options::buffer_size_const` + 1 when the format requires a mantissa sign (`format` feature). -/
+
+/-- on the dumped size tables -/
+def intBufferSizeConstFixed (feats : Features) (name : String) (radix : Nat) (reqSign : Bool) : Nat :=
+  intBufferSizeConst feats name radix + (if feats.format = true ∧ reqSign = true then 1 else 0)
+
+/-- **`int_bound_fixed`**: with the repaired size, sign (`-`, or the required `+`, also for unsigned types) plus numeral
+always fit; the repaired size is never smaller than the current one. -/
+theorem int_bound_fixed (feats : Features) (t : Gen.Sizes.Ty) (r v : Nat) (reqSign : Bool) (hfit : intFits feats t r = true)
+    (hr : 2 ≤ r) (hv : v ≤ magOf t) (hsign : feats.format = true ∧ reqSign = true) :
+    (numeral r v).length + 1 ≤ intBufferSizeConstFixed feats t.name r reqSign ∧
+    intBufferSizeConst feats t.name r ≤ intBufferSizeConstFixed feats t.name r reqSign := by
+  have h := int_bound feats t r v hfit hr hv
+  unfold intBufferSizeConstFixed
+  rw [if_pos hsign]
+  omega
+
+/-- on C03's writer model: the repaired size is at least the size under which C03 proves the integer writers correct
+(`requiredSize` = documented size + 1 for unsigned types with a required `+`) … -/
+def writeIntSizeFixed (feats : Features) (t : IntTy) (radix : Nat) (reqSign : Bool) : Nat :=
+  LexVerif.Model.WriteInt.bufferSizeConst feats t radix + (if feats.format = true ∧ reqSign = true then 1 else 0)
+
+theorem requiredSize_le_fixed (feats : Features) (t : IntTy) (radix : Nat) (reqSign : Bool) :
+    LexVerif.Model.WriteInt.requiredSize feats t radix reqSign ≤ writeIntSizeFixed feats t radix reqSign ∧
+    LexVerif.Model.WriteInt.bufferSizeConst feats t radix ≤ writeIntSizeFixed feats t radix reqSign := by
+  unfold LexVerif.Model.WriteInt.requiredSize writeIntSizeFixed
+  repeat' split
+  all_goals simp_all
+
+/-- … hence, with the repair, a buffer of the documented size suffices for every `compact` integer write, unsigned `+`
+included (C03's `writeInt_correct_compact` transferred). -/
+theorem writeInt_fixed_size_suffices_compact (feats : Features) (t : IntTy) (radix : Nat) (reqSign checkValid : Bool)
+    (v : Int) (buffer : LexVerif.Model.WriteInt.Buf) (hc : feats.compact = true)
+    (hwf : LexVerif.Model.WriteInt.FeaturesWF feats) (hbits : LexVerif.Model.WriteInt.ValidBits t.bits)
+    (hvalid : LexVerif.Model.WriteInt.validRadix feats radix = true) (hv : t.inRange v)
+    (hbuf : writeIntSizeFixed feats t radix reqSign ≤ buffer.length) :
+    ∃ out, LexVerif.Model.WriteInt.writeInt feats t radix reqSign checkValid v buffer = .ok out :=
+  ⟨_, LexVerif.Props.C03.writeInt_correct_compact feats t radix reqSign checkValid v buffer hc hwf hbits hvalid hv
+    (Nat.le_trans (requiredSize_le_fixed feats t radix reqSign).1 hbuf)⟩
 
 end LexVerif.Props.C09
